@@ -62,19 +62,27 @@ func SectorTweak(sector uint64) []byte {
 // key = Key1||Key2 (each half an AES key) and a 16-byte tweak value
 // (the data unit number, not yet encrypted).
 func Crypt(enc bool, key, tweak, in []byte) ([]byte, error) {
+	out, _, err := CryptStats(enc, key, tweak, in)
+	return out, err
+}
+
+// CryptStats is Crypt and additionally reports in how many block transitions
+// the multiplication by α overflowed x^128 (the 0x87 reduction was applied).
+func CryptStats(enc bool, key, tweak, in []byte) ([]byte, int, error) {
+	carries := 0
 	if len(key)%2 != 0 {
-		return nil, errors.New("xtsref: odd key length")
+		return nil, 0, errors.New("xtsref: odd key length")
 	}
 	if len(tweak) != 16 || len(in) == 0 || len(in)%16 != 0 {
-		return nil, errors.New("xtsref: bad length")
+		return nil, 0, errors.New("xtsref: bad length")
 	}
 	k1, err := aes.NewCipher(key[:len(key)/2])
 	if err != nil {
-		return nil, err
+		return nil, 0, err
 	}
 	k2, err := aes.NewCipher(key[len(key)/2:])
 	if err != nil {
-		return nil, err
+		return nil, 0, err
 	}
 	t := make([]byte, 16)
 	k2.Encrypt(t, tweak)
@@ -92,9 +100,12 @@ func Crypt(enc bool, key, tweak, in []byte) ([]byte, error) {
 		for j := 0; j < 16; j++ {
 			out[off+j] = buf[j] ^ t[j]
 		}
+		if t[15]&0x80 != 0 && off+16 < len(in) { // the reduced tweak is used by the next block
+			carries++
+		}
 		t = MulAlpha(t)
 	}
-	return out, nil
+	return out, carries, nil
 }
 
 // Sector is Crypt with the tweak derived from a 64-bit sector number.
